@@ -9,8 +9,8 @@ theorem find_not_eq_head_dropWhile (p : Nat → Bool) (l : Str) :
   | nil => rfl
   | cons x xs ih =>
     by_cases hx : p x = true
-    · simp [List.find?_cons, List.dropWhile_cons, hx, ih]
-    · simp [List.find?_cons, List.dropWhile_cons, hx]
+    · simp [hx, ih]
+    · simp [hx]
 
 theorem handleCapitalSigma_eq (cased ign : Nat → Bool) (rb after : Str) :
     handleCapitalSigma cased ign rb after =
@@ -47,7 +47,7 @@ theorem lowerAux_eq (lo : Nat → Str) (cased ign : Nat → Bool) (rb s : Str) :
     · unfold specLowerAux
       congr 1
       funext i
-      simp [Function.comp, List.take_succ_cons, List.reverse_cons, List.append_assoc]
+      simp [List.take_succ_cons, List.reverse_cons, List.append_assoc]
 
 theorem lowerCase_eq_spec (lo : Nat → Str) (cased ign : Nat → Bool) (s : Str) :
     lowerCase lo cased ign s = FOStrings.lowerCase lo cased ign s := by
